@@ -185,6 +185,57 @@ pub fn run(rng: &mut Rng, n: usize, rep: &mut Report) {
                         }
                     }
                 }
+                // ---- FIRST emissions setup by the emissions admin on a bank that has none yet (bank 1), any 64-bit flag word,
+                //      through the real instruction (it creates the emissions token account): only the emissions fields and the two
+                //      emission bits may change; a flag word outside those bits must be refused
+                if s.banks.len() > 1 {
+                    let h1 = s.banks[1];
+                    let pre1 = s.w.bank(&h1.bank);
+                    if pre1.emissions_mint == Pubkey::default() {
+                        let f: u64 = match rng.below(5) {
+                            0 => rng.below(4),
+                            1 => rng.below(128),
+                            2 => rng.next(),
+                            3 => (FREEZE_SETTINGS | PERMISSIONLESS_BAD_DEBT_SETTLEMENT_FLAG | TOKENLESS_REPAYMENTS_ALLOWED) & rng.next() | rng.below(4),
+                            _ => 4 | rng.below(4),
+                        };
+                        let mut w = s.w.clone();
+                        let signer = if rng.chance(1, 6) { other } else { emis };
+                        let r = w.exec(&ix::setup_emissions(&h1, signer, emint, funding, w.token_program_of(&emint), f, rng.below(1_000_000), rng.below(1_000_000)));
+                        cells += 1;
+                        rep.bump("cases");
+                        match r {
+                            Ok(()) => {
+                                rep.bump("setup_emissions_ok");
+                                let post = w.bank(&h1.bank);
+                                let ok = same_except(&pre1, &post, |p, q| {
+                                    p.emissions_rate = q.emissions_rate;
+                                    p.emissions_remaining = q.emissions_remaining;
+                                    p.emissions_mint = q.emissions_mint;
+                                    p.flags = (p.flags & !EMISSION_BITS) | (q.flags & EMISSION_BITS);
+                                });
+                                if post.flags & !EMISSION_BITS != pre1.flags & !EMISSION_BITS || signer != emis {
+                                    rep.fail(format!(
+                                        "C08 a bank flag outside the emissions admin's role was changed through lending_pool_setup_emissions(flags={:#x}) signed by {}: {:#x} -> {:#x} (PERMISSIONLESS_BAD_DEBT_SETTLEMENT / FREEZE_SETTINGS / TOKENLESS_REPAYMENTS_* are set only by instructions that name the group admin)",
+                                        f, if signer == emis { "the emissions admin" } else { "a key that holds no role for it" }, pre1.flags, post.flags
+                                    ));
+                                }
+                                if !ok || signer != emis {
+                                    rep.fail(format!(
+                                        "emissions-admin-changes-other-flags: lending_pool_setup_emissions(flags={:#x}) signed by {} turned bank.flags {:#x} into {:#x} (only the emissions fields and the two emission bits are in the emissions admin's remit)",
+                                        f, if signer == emis { "the emissions admin" } else { "ANOTHER KEY" }, pre1.flags, post.flags
+                                    ));
+                                }
+                            }
+                            Err(_) => {
+                                rep.bump("setup_emissions_refused");
+                                if f & !EMISSION_BITS == 0 && signer == emis {
+                                    rep.bump("setup_emissions_refused_with_plain_flags");
+                                }
+                            }
+                        }
+                    }
+                }
                 // ---- oracle instructions must not touch a frozen bank
                 if frozen {
                     let mut w = s.w.clone();
